@@ -201,28 +201,30 @@ Theorem C07_set_thickness_rebases :
 Proof. exact set_thickness_rebases. Qed.
 Print Assumptions C07_set_thickness_rebases.
 
-Theorem C07_scale_system_columns_meet_spec :
-  forall (s : T ROps) (p : @presc ROps),
-       pc_R (scale_system (O:=ROps) s p) = pc_R (scaled_presc (O:=ROps) s p) /\
-       pc_ap (scale_system (O:=ROps) s p) = pc_ap (scaled_presc (O:=ROps) s p) /\
-       pc_apval (scale_system (O:=ROps) s p) = pc_apval (scaled_presc (O:=ROps) s p).
-Proof. exact scale_system_columns_meet_spec. Qed.
-Print Assumptions C07_scale_system_columns_meet_spec.
+Theorem C07_scale_system_is_scaling :
+  forall (s : R) (p : @presc ROps),
+       (2 <= Datatypes.length (pc_pos p))%nat ->
+       nth 1 (pc_pos p) 0%R = 0%R -> scale_system (O:=ROps) s p = scaled_presc (O:=ROps) s p.
+Proof. exact scale_system_is_scaling. Qed.
+Print Assumptions C07_scale_system_is_scaling.
 
-Theorem C07_scale_system_keeps_decentres :
-  forall (s : T ROps) (p : @presc ROps),
-       pc_dx (scale_system (O:=ROps) s p) = pc_dx p /\ pc_dy (scale_system (O:=ROps) s p) = pc_dy p.
-Proof. exact scale_system_keeps_decentres. Qed.
-Print Assumptions C07_scale_system_keeps_decentres.
+Theorem C07_scale_pos_is_scaling :
+  forall (z : list R) (s : R),
+       (2 <= Datatypes.length z)%nat ->
+       nth 1 z 0%R = 0%R ->
+       scale_pos (O:=ROps) s (Datatypes.length z) (thicknesses (O:=ROps) z) 0 z = map (Rmult s) z.
+Proof. exact scale_pos_is_scaling. Qed.
+Print Assumptions C07_scale_pos_is_scaling.
 
-Theorem C07_scale_system_decentres_partial :
-  forall (s : T ROps) (p : @presc ROps),
-       Forall (fun d : R => d = 0%R) (pc_dx p) ->
-       Forall (fun d : R => d = 0%R) (pc_dy p) ->
-       pc_dx (scale_system (O:=ROps) s p) = pc_dx (scaled_presc (O:=ROps) s p) /\
-       pc_dy (scale_system (O:=ROps) s p) = pc_dy (scaled_presc (O:=ROps) s p).
-Proof. exact scale_system_decentres_partial. Qed.
-Print Assumptions C07_scale_system_decentres_partial.
+Theorem C07_scale_pos_infinite_object :
+  forall (z : list R) (s : R) (j : nat),
+       (2 <= Datatypes.length z)%nat ->
+       nth 1 z 0%R = 0%R ->
+       (1 <= j < Datatypes.length z)%nat ->
+       nth j (scale_pos (O:=ROps) s (Datatypes.length z) (tl (thicknesses (O:=ROps) z)) 1 z) 0%R = (s * nth j z 0%R)%R /\
+       nth 0 (scale_pos (O:=ROps) s (Datatypes.length z) (tl (thicknesses (O:=ROps) z)) 1 z) 0%R = nth 0 z 0%R.
+Proof. exact scale_pos_infinite_object. Qed.
+Print Assumptions C07_scale_pos_infinite_object.
 
 Theorem C07_untilted_quadric_is_sphere :
   forall X Y Z vx vy vz Rc : R,
